@@ -452,14 +452,14 @@ def mod_inv_domain_rule(rep, u, fname="bn_mod_inv_bin"):
 
 # ------------------------------------------------------------------------------------------------ R-REDUCED
 
-REDUCERS = {"bn_mod", "bn_mod_mult", "bn_mod_square", "bn_mod_exp", "bn_mod_exp_digit", "bn_mod_mult_digit", "bn_assign_digit"}
+REDUCERS = {"bn_mod", "bn_mod_mult", "bn_mod_square", "bn_mod_exp", "bn_mod_exp_digit", "bn_mod_mult_digit"}   # not bn_assign_digit(bn, 1): 1 mod 1 is 0
 
 
 def _only_small_cases(fn, b, res, depth=0):
     """block b is entered only through `case 0:` / `case 1:` edges of a switch over res->num[0]"""
     blk = fn.blocks[b]
     lab = blk.label or {}
-    if "case" not in lab or lab["case"] not in (0, 1, "0", "1") or depth > 3:
+    if "case" not in lab or lab["case"] not in (0, "0") or depth > 3:           # 0 is reduced for every modulus; 1 is not (m = 1)
         return False
     for p in blk.preds:
         pb = fn.blocks[p]
@@ -489,17 +489,145 @@ def reduced_exit_rule(rep, u, names=("bn_mod_exp", "bn_mod_exp_digit")):
             r = core.base_ref(c["args"][0])
             if r is not None and r["n"] == res:
                 red_blocks.add(pos[0])
-        free = fn.reach_from([fn.entry], avoid=red_blocks)
+        # a loop `for (; 0 != v; ...)` behind a switch over v whose `case 0` arm leaves is entered at least once: its
+        # zero-iteration exit edge is not a path
+        dead_edges = set()
+        for h, body in fn.loops().items():
+            c = fn.blocks[h].cond
+            c0 = core.strip_casts(c) if c is not None else None
+            if c0 is None or not (c0.get("k") == "bin" and c0["op"] == "!=" and len(fn.blocks[h].succ) == 2):
+                continue
+            a, b = core.strip_casts(c0["x"]), core.strip_casts(c0["y"])
+            var = a if const_val(b) == 0 else (b if const_val(a) == 0 else None)
+            if var is None or var.get("k") != "ref":
+                continue
+            for sb in fn.reachable_blocks():
+                blk = fn.blocks[sb]
+                if blk.term and blk.term["k"] == "SwitchStmt" and blk.cond is not None and key(core.strip_casts(blk.cond)) == var["n"] and fn.dominates(sb, h):
+                    zero_arm = [s_ for s_ in blk.rsucc() if (fn.blocks[s_].label or {}).get("case") in (0, "0")]
+                    written = any(x.get("k") == "bin" and x["op"].endswith("=") and x["op"] not in ("==", "!=", "<=", ">=") and core.is_ref(core.strip_casts(x["x"]), name=var["n"])
+                                  for p_, r_, x, _ in fn.nodes() if fn.dominates(sb, p_[0]) and fn.dominates(p_[0], h) and p_[0] not in body)
+                    if zero_arm and not written and all(h not in fn.reach_from([z]) for z in zero_arm):
+                        exit_succ = [s_ for s_ in fn.blocks[h].rsucc() if s_ not in body]
+                        for e_ in exit_succ:
+                            dead_edges.add((h, e_))
+        free = set()
+        st_ = [fn.entry]
+        while st_:
+            b_ = st_.pop()
+            if b_ in free or b_ in red_blocks:
+                continue
+            free.add(b_)
+            for s_ in fn.blocks[b_].rsucc():
+                if (b_, s_) not in dead_edges:
+                    st_.append(s_)
         for pos in r_mpt.success_returns(fn):
             r = fn.blocks[pos[0]].elems[pos[1]]
             n += 1
             inst = "reduced-exit@%d" % n
             desc = "%s: the success return at line %s is reached only through a reducing operation on '%s'" % (name, r.get("ln"), res)
             if pos[0] in free and _only_small_cases(fn, pos[0], res):
-                rep.proved("R-REDUCED", fn, inst, desc, "reached only when '%s' is the single digit 0 or 1: reduced for every modulus above 1" % res, r.get("ln"))
+                rep.proved("R-REDUCED", fn, inst, desc, "reached only when '%s' is 0: reduced for every modulus" % res, r.get("ln"))
             elif pos[0] in free:
                 rep.violated("R-REDUCED", fn, inst, desc, "reachable from the entry without any of %s: bn_mod_exp(10, 1, 7) returns 10" %
                              "/".join(sorted(REDUCERS))[:90], r.get("ln"))
             else:
                 rep.proved("R-REDUCED", fn, inst, desc, "every path passes a reducer", r.get("ln"))
+    return n
+
+
+def capacity_vs_length_rule(rep, fn):
+    """a routine that must hold a value below the modulus needs room for the modulus' LENGTH (m->digits); comparing its
+    capacity with the CAPACITY of the modulus object (m->count) refuses small moduli kept in large objects - and
+    bn_mod_sqrt then reads the refusal as "no root" """
+    n = 0
+    for bid in fn.reachable_blocks():
+        cnd = fn.blocks[bid].cond
+        if cnd is None:
+            continue
+        for y, _ in walk(cnd):
+            if y.get("k") == "bin" and y["op"] in ("<", ">", "<=", ">="):
+                a, b = core.strip_casts(y["x"]), core.strip_casts(y["y"])
+                if a.get("k") == "mem" and b.get("k") == "mem" and a["f"] == "count" and b["f"] in ("count", "digits") and \
+                        core.base_ref(a) is not None and core.base_ref(b) is not None and core.base_ref(a)["n"] != core.base_ref(b)["n"] and \
+                        core.base_ref(b).get("dk") == "parm" and core.base_ref(a).get("dk") == "parm":
+                    n += 1
+                    rep.functions.add(fn.name)
+                    desc = "%s: the room test compares the destination's capacity with the other operand's length, not with the capacity of its object" % fn.name
+                    if b["f"] == "count":
+                        rep.violated("R-CAPLEN", fn, "capacity-vs-length", desc, "%s: m = 17 kept in a 2048-bit object makes bn_mod_exp answer EOVERFLOW; bn_mod_sqrt(2, 17) "
+                                     "then returns 'no root' although 6*6 = 2 (mod 17)" % key(y)[:60], y.get("ln"))
+                    else:
+                        rep.proved("R-CAPLEN", fn, "capacity-vs-length", desc, key(y)[:60], y.get("ln"))
+    return n
+
+
+def tristate_status_rule(rep, fn, callee="bn_mod_legendre"):
+    """bn_mod_legendre answers -1 / 0 / 1 or an error code (> 1): a caller that only asks `-1 != result` takes an error for
+    'residue' """
+    n = 0
+    for pos, root, c, ps in fn.calls({callee}):
+        n += 1
+        rep.functions.add(fn.name)
+        ids = core.result_locals(fn, {callee})
+        ranged = False
+        for bid in fn.reachable_blocks():
+            cnd = fn.blocks[bid].cond
+            if cnd is None:
+                continue
+            for y, _ in walk(cnd):
+                if y.get("k") == "bin" and y["op"] in ("<", ">", "<=", ">=") and any(z.get("k") == "ref" and z.get("id") in ids for z, _ in walk(y)):
+                    ranged = True
+        direct = any(p.get("k") == "bin" and p["op"] in ("==", "!=") for p in ps)
+        desc = "%s: the result of %s is range-tested, so that an error is not read as a residue class" % (fn.name, callee)
+        if ranged and not direct:
+            rep.proved("R-ERR", fn, "tristate-status#%d" % n, desc, "", c.get("ln"))
+        else:
+            rep.violated("R-ERR", fn, "tristate-status#%d" % n, desc, "compared with -1 only: EOVERFLOW from the power routine counts as 'residue' and the search gives up with 'no root'", c.get("ln"))
+    return n
+
+
+def capacity_kept_rule(rep, fn):
+    """bn_assign_init() gives its destination the capacity of the source: applied to the caller's result object it silently
+    changes the declared capacity (gcd into a 64-bit object returns 201 bits; into a 2048-bit one shrinks it to 128)"""
+    if not fn.has_cfg:
+        return 0
+    parms = {p["n"] for p in fn.params}
+    alias = set()
+    for pos, root, x, ps in fn.nodes():
+        if x.get("k") == "decl":
+            for v in x["vars"]:
+                if "init" in v and core.strip_casts(v["init"]).get("k") == "ref" and core.strip_casts(v["init"])["n"] in parms:
+                    alias.add(v["n"])
+    n = 0
+    for pos, root, c, ps in fn.calls({"bn_assign_init", "bn_init"}):
+        a0 = core.strip_casts(c["args"][0])
+        if a0.get("k") == "ref" and (a0["n"] in alias or (a0["n"] in parms and a0.get("dk") == "parm")):
+            n += 1
+            rep.functions.add(fn.name)
+            rep.violated("R-CAPKEEP", fn, "capacity-kept#%d" % n, "%s: the capacity of a caller's object is not re-declared" % fn.name,
+                         "%s(%s, ...) re-declares the caller's object with the source's capacity: gcd(2^200, 3*2^201) into a 64-bit object returns 0 with 201 bits" % (c["fn"], a0["n"]), c.get("ln"))
+    return n
+
+
+def no_inverse_exit_rule(rep, u, names=("bn_mod_inv2", "bn_mod_div_mont")):
+    n = 0
+    for name in names:
+        fn = u.fn(name)
+        if fn is None or not fn.has_cfg:
+            continue
+        n += 1
+        rep.functions.add(name)
+        loops = fn.loops()
+        inloop = set().union(*loops.values()) if loops else set()
+        ok = False
+        for bid in fn.reachable_blocks():
+            cnd = fn.blocks[bid].cond
+            if cnd is None or bid in inloop:
+                continue
+            if any(y.get("k") == "call" and y.get("fn") == "bn_is_one" for y, _ in walk(cnd)) and \
+                    any(const_val(r.get("e")) not in (None, 0) and fn.dominates(bid, p[0]) for p, r in fn.returns()):
+                ok = True
+        desc = "%s: after the Euclid loop the gcd is tested to be 1 before success is reported" % name
+        (rep.proved if ok else rep.violated)("R-DOMAIN", fn, "gcd-is-one", desc, "" if ok else "no test: inverse of 6 modulo 15 returns 0 with 13 (6 * 13 = 3 mod 15)")
     return n
